@@ -148,7 +148,7 @@ var RawEntryPoints = []string{"Parse:untrusted", "Canonicalise:CanonicalJSON", "
 	"VerifyJSON", "SignJSON", "ListKeyIDs", "CheckKeys", "KeyRing", "ParseAuthorization", "VerifyHTTPRequest", "HTTPRequest",
 	"ParseIdentifier:NewRoomID", "ParseIdentifier:NewUserID", "ParseIdentifier:NewUserIDStrict", "ParseIdentifier:ServerName",
 	"ParseIdentifier:SenderID", "ParseIdentifier:SplitID",
-	"Body:CheckStateResponse", "Body:SendJoin", "Body:Transaction", "Body:PerformJoin", "Body:LoadAndVerify", "Handle:InviteV3"}
+	"Body:CheckStateResponse", "Body:SendJoin", "Body:Transaction", "Body:PerformJoin", "Body:LoadAndVerify", "Body:Backfill", "Handle:InviteV3"}
 
 // hasError says whether an entry point has an error channel (else only "ok" is a legal outcome).
 func rawHasError(op string) bool {
@@ -345,6 +345,14 @@ func (s *pipeState) rawOp(op, ver string, data []byte) outcome {
 			l := gmsl.NewEventsLoader(gmsl.RoomVersion(ver), verifier{}, stubStateProvider{map[string]gmsl.PDU{}}, eventProviderOver(map[string]gmsl.PDU{}), false)
 			_, err := l.LoadAndVerify(bg, raws, gmsl.TopologicalOrderByPrevEvents, userIDForSender)
 			return err
+		})
+	case "Body:Backfill":
+		return s.do(op, func() error {
+			var t gmsl.Transaction
+			if err := json.Unmarshal(data, &t); err != nil {
+				return err
+			}
+			return backfill(gmsl.RoomVersion(ver), t.PDUs, nil)
 		})
 	case "Body:PerformJoin":
 		return s.performJoin(ver, data)
